@@ -115,9 +115,13 @@ func (dt DateTime) TryEqual(input Any) (bool, bool) {
 		return dt.dateTime.Equal(val.dateTime), true
 	}
 
-	// normalize time zone
-	dt.dateTime = dt.dateTime.UTC()
-	val.dateTime = val.dateTime.UTC()
+	// normalize time zone; values carrying the same offset are compared as
+	// written, since shifting a partial value (T23+05:30) by a fractional-hour
+	// offset would change components it does not specify.
+	if !sameOffset(dt.dateTime, val.dateTime) {
+		dt.dateTime = dt.dateTime.UTC()
+		val.dateTime = val.dateTime.UTC()
+	}
 
 	dtComponents := dt.getComponents()
 	valComponents := val.getComponents()
@@ -145,9 +149,13 @@ func (dt DateTime) Less(input Any) (Boolean, error) {
 		return Boolean(dt.dateTime.Before(val.dateTime)), nil
 	}
 
-	// normalize time zone
-	dt.dateTime = dt.dateTime.UTC()
-	val.dateTime = val.dateTime.UTC()
+	// normalize time zone; values carrying the same offset are compared as
+	// written, since shifting a partial value (T23+05:30) by a fractional-hour
+	// offset would change components it does not specify.
+	if !sameOffset(dt.dateTime, val.dateTime) {
+		dt.dateTime = dt.dateTime.UTC()
+		val.dateTime = val.dateTime.UTC()
+	}
 
 	dtComponents := dt.getComponents()
 	valComponents := val.getComponents()
@@ -286,4 +294,11 @@ func roundToDateTimePrecision(p dateTimePrecision, d time.Duration) time.Duratio
 	default:
 		return d
 	}
+}
+
+// sameOffset reports whether both times carry the same UTC offset.
+func sameOffset(a, b time.Time) bool {
+	_, offsetA := a.Zone()
+	_, offsetB := b.Zone()
+	return offsetA == offsetB
 }
